@@ -24,7 +24,7 @@ func init() {
 			ruleP6b(c)
 			ruleO1(c)
 		},
-		explanation: "Decides the launch structure for pre-installed plugins: an entry of the plugin directory is only added to the discovery result after it was found not to be a directory, to have an execute bit, and to parse as idx-name (the three result lists grow together, from that parse); the child's environment is a fresh list of exactly three NAME=value strings whose names are the constants the stub reads with os.Getenv, carrying the plugin's base name, its index and the descriptor number 3, and the child gets exactly one extra file, the peer end of the socket pair, which is what descriptor 3 is; the socket pair is created close-on-exec on every build variant; the drop-in configuration candidates are idx-name.conf then name.conf, first readable wins and a read error other than not-exist is returned; a plugin that fails to launch, start or synchronize is skipped with continue (and stopped) without affecting the others, and the list is sorted by index; stop kills and reaps the process, and every plugin dropped from the list is stopped. stopPlugins stops every plugin of the list unconditionally. The start-up sync callback never reports a single plugin's error; entries that are not launched anyway are filtered before their names are parsed.",
+		explanation: "Decides the launch structure for pre-installed plugins: an entry of the plugin directory is only added to the discovery result after it was found not to be a directory, to have an execute bit, and to parse as idx-name (the three result lists grow together, from that parse); the child's environment is a fresh list of exactly three NAME=value strings whose names are the constants the stub reads with os.Getenv, carrying the plugin's base name, its index and the descriptor number 3, and the child gets exactly one extra file, the peer end of the socket pair, which is what descriptor 3 is; the socket pair is created close-on-exec on every build variant; the drop-in configuration candidates are idx-name.conf then name.conf, first readable wins and a read error other than not-exist is returned; a plugin that fails to launch, start or synchronize is skipped with continue (and stopped) without affecting the others, and the list is sorted by index; stop kills and reaps the process, and every plugin dropped from the list is stopped. stopPlugins stops every plugin of the list unconditionally. The start-up sync callback never reports a single plugin's error; entries that are not launched anyway are filtered before their names are parsed. The start-up cleanup sees the plugin list as it is at exit.",
 		notDecided: []string{
 			"what the kernel and os/exec do with descriptors",
 			"the process table (that Kill/Wait succeed)",
@@ -584,6 +584,31 @@ func ruleP6(c *Ctx) {
 		return false
 	}
 	okDrop := stopsInLoop(rm, 0)
+	// start-up's failure cleanup works on the list as it is at exit: the deferred function reads the variable itself
+	// (a captured variable), it is not handed the list's value at the time of the defer statement (nil, then)
+	{
+		sp2 := m.method(pkgAdapt, "Adaptation", "startPlugins")
+		for _, ci := range calls(sp2) {
+			df, ok := ci.(*ssa.Defer)
+			if !ok {
+				continue
+			}
+			fn := closureFn(df.Call.Value)
+			if fn == nil || !stopsInLoop(fn, 0) {
+				continue
+			}
+			byValue := false
+			for _, a := range df.Call.Args {
+				if sl, ok := a.Type().Underlying().(*types.Slice); ok {
+					if n := ptrNamed(sl.Elem()); n != nil && tname(n.Obj()) == "plugin" {
+						byValue = true
+					}
+				}
+			}
+			c.ok("P6", "startPlugins/cleanup-sees-final-list", df.Pos(), !byValue, "the failure cleanup of start-up stops the plugins that were started by then",
+				"the deferred cleanup is passed the plugin list as an argument, which is evaluated when the defer statement runs (before any plugin was started): when start-up fails afterwards, none of the launched plugins is stopped")
+		}
+	}
 	c.ok("P6", "removeClosedPlugins", rm.Pos(), okDrop, "every plugin dropped from the list is stopped", "dropped plugins are not stopped: their processes are never killed")
 }
 
